@@ -698,7 +698,12 @@ func (r *RegisteredDecoys) markActive(d *DecoyRegistration) {
 		regTimeout.status = regStatusUsed
 
 		// Since we update the applicable timeout here, we should update that
-		// timeout in the detector side.
+		// timeout in the detector side. Announce the registration that is tracked under this
+		// key - the caller may still hold the object of an earlier lifetime (expired, swept and
+		// registered again, possibly from another client address), whose fields are stale.
+		if tracked, ok := r.decoys[regTimeout.decoy][regTimeout.identifier]; ok {
+			d = tracked
+		}
 		r.updateInDetector(d)
 	}
 }
